@@ -546,14 +546,17 @@ impl EpochDifficultyTrend {
                     let state = "decreased";
                     for index in 0..*epochs_count {
                         curr /= tau;
-                        total = total.checked_add(&curr).unwrap_or_else(|| {
-                            panic!(
-                                "overflow when calculate the limit of total difficulty, \
+                        // Since `actual` is never bigger than the maximum value, a saturated
+                        // `total` leads to the short-circuit below.
+                        total = total.saturating_add(&curr);
+                        if log_enabled!(Level::Trace) {
+                            trace!(
+                                "calculate the limit of total difficulty, \
                                 total: {}, current: {}, index: {}/{}, tau: {}, \
                                 state: {}, trend: {:?}, details: {:?}",
                                 total, curr, index, epochs_count, tau, state, self, details
                             );
-                        });
+                        }
                         if total >= *actual {
                             if check_max {
                                 debug!("check total difficulty: not greater than upper limit (short-circuit)");
@@ -573,14 +576,17 @@ impl EpochDifficultyTrend {
                     let state = "increased";
                     for index in 0..*epochs_count {
                         curr = curr.saturating_mul(&tau_u256);
-                        total = total.checked_add(&curr).unwrap_or_else(|| {
-                            panic!(
-                                "overflow when calculate the limit of total difficulty, \
+                        // Since `actual` is never bigger than the maximum value, a saturated
+                        // `total` leads to the short-circuit below.
+                        total = total.saturating_add(&curr);
+                        if log_enabled!(Level::Trace) {
+                            trace!(
+                                "calculate the limit of total difficulty, \
                                 total: {}, current: {}, index: {}/{}, tau: {}, \
                                 state: {}, trend: {:?}, details: {:?}",
                                 total, curr, index, epochs_count, tau, state, self, details
                             );
-                        });
+                        }
                         if total >= *actual {
                             if check_max {
                                 debug!("check total difficulty: not greater than upper limit (short-circuit)");
@@ -599,7 +605,7 @@ impl EpochDifficultyTrend {
             }
         }
         if check_max {
-            if &total + unaligned >= *actual {
+            if total.saturating_add(unaligned) >= *actual {
                 debug!("check total difficulty: not greater than upper limit (fully-calculated)");
                 Ok(())
             } else {
@@ -609,7 +615,11 @@ impl EpochDifficultyTrend {
                 );
                 Err(errmsg)
             }
-        } else if &total + unaligned <= *actual {
+        } else if total
+            .checked_add(unaligned)
+            .map(|limit| limit <= *actual)
+            .unwrap_or(false)
+        {
             debug!("check total difficulty: not less than lower limit (fully-calculated)");
             Ok(())
         } else {
@@ -966,10 +976,16 @@ pub(crate) fn verify_tau(
         }
         Ok(true)
     } else {
+        if start_epoch.number() > end_epoch.number() {
+            error!("failed: the start epoch is later than the end epoch");
+            return Err(StatusCode::MalformedProtocolMessage.into());
+        }
         let start_block_difficulty = compact_to_difficulty(start_compact_target);
         let end_block_difficulty = compact_to_difficulty(end_compact_target);
-        let start_epoch_difficulty = start_block_difficulty * start_epoch.length();
-        let end_epoch_difficulty = end_block_difficulty * end_epoch.length();
+        let start_epoch_difficulty =
+            start_block_difficulty.saturating_mul(&U256::from(start_epoch.length()));
+        let end_epoch_difficulty =
+            end_block_difficulty.saturating_mul(&U256::from(end_epoch.length()));
         // How many times are epochs switched?
         let epochs_switch_count = end_epoch.number() - start_epoch.number();
         let epoch_difficulty_trend =
@@ -996,12 +1012,30 @@ pub(crate) fn verify_total_difficulty(
         return Err(errmsg);
     }
 
+    // The epochs are provided by the peer, they could be malformed or out of order.
+    if !start_epoch.is_well_formed()
+        || !end_epoch.is_well_formed()
+        || start_epoch.number() > end_epoch.number()
+        || (start_epoch.number() == end_epoch.number() && start_epoch.index() > end_epoch.index())
+    {
+        let errmsg = format!(
+            "failed since the epochs ([{:#},{:#}]) are malformed or not in order",
+            start_epoch, end_epoch
+        );
+        return Err(errmsg);
+    }
+    let checked_mul = |difficulty: &U256, count: u64| -> Result<U256, String> {
+        difficulty.checked_mul(&U256::from(count)).ok_or_else(|| {
+            format!("failed since overflow when calculate {difficulty:#x} * {count}")
+        })
+    };
+
     let total_difficulty = end_total_difficulty - start_total_difficulty;
     let start_block_difficulty = &compact_to_difficulty(start_compact_target);
 
     if start_epoch.number() == end_epoch.number() {
         let total_blocks_count = end_epoch.index() - start_epoch.index();
-        let total_difficulty_calculated = start_block_difficulty * total_blocks_count;
+        let total_difficulty_calculated = checked_mul(start_block_difficulty, total_blocks_count)?;
         if total_difficulty != total_difficulty_calculated {
             let errmsg = format!(
                 "failed since total difficulty is {:#x} \
@@ -1019,8 +1053,8 @@ pub(crate) fn verify_total_difficulty(
     } else {
         let end_block_difficulty = &compact_to_difficulty(end_compact_target);
 
-        let start_epoch_difficulty = start_block_difficulty * start_epoch.length();
-        let end_epoch_difficulty = end_block_difficulty * end_epoch.length();
+        let start_epoch_difficulty = checked_mul(start_block_difficulty, start_epoch.length())?;
+        let end_epoch_difficulty = checked_mul(end_block_difficulty, end_epoch.length())?;
         // How many times are epochs switched?
         let epochs_switch_count = end_epoch.number() - start_epoch.number();
         let epoch_difficulty_trend =
@@ -1040,8 +1074,12 @@ pub(crate) fn verify_total_difficulty(
         // Step-2 Check the range of total difficulty.
         let start_epoch_blocks_count = start_epoch.length() - start_epoch.index() - 1;
         let end_epoch_blocks_count = end_epoch.index() + 1;
-        let unaligned_difficulty_calculated = start_block_difficulty * start_epoch_blocks_count
-            + end_block_difficulty * end_epoch_blocks_count;
+        let unaligned_difficulty_calculated =
+            checked_mul(start_block_difficulty, start_epoch_blocks_count)?
+                .checked_add(&checked_mul(end_block_difficulty, end_epoch_blocks_count)?)
+                .ok_or_else(|| {
+                    "failed since overflow when calculate the unaligned difficulty".to_owned()
+                })?;
         if epochs_switch_count == 1 {
             if total_difficulty != unaligned_difficulty_calculated {
                 let errmsg = format!(
